@@ -304,14 +304,21 @@ def lookup_tables(chk: Check, K: Kinds, sk, code, etype, dom):
                            "a grain table is present iff its directory entry is non-zero", expected=str(want), found=str(tab))
                 _scen(chk, "K-FORMULA", f"{kind}:table-address", s, t, S.op("mul", entry, S.C(512)), ov, fl)
     # the table read has shape entry_type[table_size]; absent table -> None
-    shapes = []
+    reads, shapes = [], []
     for n in ast.walk(ctx.func):
-        if isinstance(n, ast.Assign) and isinstance(n.value, ast.Call):
-            t = R.expr(ctx, n.value)
-            if S.contains(t, lambda x: x == code["gt_size"]) and S.contains(t, lambda x: x == etype):
-                shapes.append(n)
-    chk.decide(len(shapes) >= 2, "K-FORMULA", "table-shape", ctx.func,
-               f"{len(shapes)} table reads of shape entry_type[table_size]")
+        if isinstance(n, ast.Call):
+            t = R.expr(ctx, n, ctx.cfg.node_for(n))
+            if t[0] == "read":
+                reads.append(n)
+                if S.contains(t, lambda x: x == code["gt_size"]) and S.contains(t, lambda x: x == etype):
+                    shapes.append(n)
+    # what the function hands back: None for an absent table, otherwise one of those reads
+    vals = [a for o in func_outcomes(chk, ctx) if o[0] == "return" for a in S.alternatives(o[3])]
+    okv = bool(vals) and all(a == S.C(None) or (a[0] == "read" and S.contains(a, lambda x: x == code["gt_size"]) and S.contains(a, lambda x: x == etype)) for a in vals) \
+        and any(a == S.C(None) for a in vals) and any(a != S.C(None) for a in vals)
+    chk.decide(bool(shapes) and len(shapes) == len(reads) and okv, "K-FORMULA", "table-shape", ctx.func,
+               f"{len(shapes)} of {len(reads)} table reads have the shape entry_type[table_size]; the function returns such a table or None",
+               found=str([S.show(a)[:80] for a in vals]))
     _typestate(chk, ctx, "grain-table")
     init = chk.func(REL, "SparseDisk.__init__")
     memo = any(isinstance(v, ast.Call) and "lru_cache" in ast.unparse(v.func) for (m, st, v) in chk.prog.cls(REL, "SparseDisk").self_assigns.get("_lookup_grain_table", []))
@@ -435,121 +442,7 @@ def get_runs(chk: Check, K: Kinds, sk, dom):
     if look is None:
         chk.undecided("K-FORMULA", "runs:grain-index", loop, "no _lookup_grain call in the loop")
         return
-    # run state variables by their entry values
-    tname, tinfo = carried_with_entry(chk, carried, S.C(None))
-    names0 = [n for n, i in carried.items() if i["phi"][0] == "phi" and i["phi"][3] == S.C(0)]
-    nonecar = [n for n, i in carried.items() if i["phi"][0] == "phi" and i["phi"][3] == S.C(None)]
-    # classify the zero-initialised and None-initialised variables by their update formulas
-    roles = {}
-    for n in names0 + nonecar:
-        vals = [nx for _, nx in carried[n]["next"]]
-        txt = " ".join(S.show(v) for v in vals)
-        roles[n] = txt
-    # merge predicate: statements that extend the run without opening a new one
-    from ..loader import parent as _parent
-
-    count_var = None
-    merge_stmts, open_stmts = [], []
-    for n in ast.walk(loop):
-        if isinstance(n, ast.AugAssign) and isinstance(n.target, ast.Name) and n.target.id in names0:
-            blk = [s for s in getattr(_parent(n), "body", []) + getattr(_parent(n), "orelse", [])]
-            siblings = [s for s in ast.walk(_parent(n)) if isinstance(s, ast.Assign)] if isinstance(_parent(n), ast.If) else []
-            val = R._name(ctx, n.target.id, ctx.cfg.node_of[n], {}, True, 0)
-            base = R._name(ctx, n.target.id, ctx.cfg.node_of[n], {}, False, 0)
-            if S.equiv(val, S.op("add", base, env["STEP"]), domain=dom2, n=40, override=ov, fields=fl).equal is True:
-                count_var = n.target.id
-                # opening branch assigns the run type in the same branch
-                branch = _branch_of(n)
-                opens = any(isinstance(s, ast.Assign) and any(isinstance(t, ast.Name) and t.id in nonecar for t in s.targets)
-                            for s in branch)
-                (open_stmts if opens else merge_stmts).append(n)
-    if not merge_stmts or count_var is None:
-        chk.undecided("K-KIND", "runs:merge-predicate", loop, "cannot find the statements that extend the current run")
-        return
-    # run type variable: the None-initialised variable tested in the merge conditions
-    rt = None
-    for n in nonecar:
-        phi = carried[n]["phi"]
-        if any(S.contains(c, lambda x: x == phi) for st in merge_stmts for c, _ in conds_sym(chk, ctx, st)):
-            rt = n
-    ng = None
-    for n in names0:
-        phi = carried[n]["phi"]
-        if n != count_var and any(S.contains(c, lambda x: x == phi) for st in merge_stmts for c, _ in conds_sym(chk, ctx, st)):
-            ng = n
-    if rt is None:
-        chk.undecided("K-KIND", "runs:merge-predicate", loop, "cannot identify the run-type variable")
-        return
-    RT = carried[rt]["phi"]
-    NG = carried[ng]["phi"] if ng is not None else S.unk("no-expected-next-sector-variable")
-    bad = []
-    ncases = 0
-    GS = 128
-    for run_type in (None, 0, 1, 1000, 2, 5000):
-        for grain_sector in (0, 1, 2, 1000, 1128, 1256, 5000, 5128):
-            nexts = [0] if run_type in (None, 0, 1) else [run_type + GS, run_type + 2 * GS]
-            for nxt in nexts:
-                ncases += 1
-                merged = any(reach_table(conds_sym(chk, ctx, st), {"rt": RT, "ng": NG, "g": look},
-                                         [{"rt": run_type, "ng": nxt, "g": grain_sector}], override=ov, fields=fl)[0]
-                             for st in merge_stmts)
-                if run_type is None:
-                    want = False
-                elif run_type in (0, 1):
-                    want = grain_sector == run_type
-                else:
-                    want = grain_sector > 1 and grain_sector == nxt
-                if merged != want:
-                    bad.append(f"run type {run_type}, expected next {nxt}, grain at {grain_sector}: merges={merged}, specified {want}")
-    chk.decide(not bad, "K-KIND", "runs:merge-predicate", merge_stmts[0],
-               f"unallocated/zero runs extend over the same kind only, allocated runs only over the physically next grain "
-               f"({ncases} cases)" if not bad else "; ".join(bad[:3]))
-    # expected-next-sector bookkeeping and run start values
-    if ng is None:
-        return
-    others0 = [n for n in names0 if n not in (count_var, ng)]
-    othersN = [n for n in nonecar if n != rt]
-    ro = others0[0] if len(others0) == 1 else None
-    rp = othersN[0] if len(othersN) == 1 else None
-
-    def at_end(blk, name):
-        last = blk[-1]
-        return R._name(ctx, name, ctx.cfg.node_of[last], {}, True, 0)
-
-    for st in merge_stmts:
-        if any(S.contains(c, lambda x: x == NG) for c, _ in conds_sym(chk, ctx, st)):
-            blk = _branch_of(st)
-            _scen(chk, "K-KIND", "runs:next-sector-after-merge", st, at_end(blk, ng), S.op("add", NG, gsz), ov, fl, dom2)
-    n_open = {"alloc": 0, "unalloc": 0}
-    for st in open_stmts:
-        blk = _branch_of(st)
-        rt_val = at_end(blk, rt)
-        if rt_val == look:
-            # opening an allocated run
-            n_open["alloc"] += 1
-            _scen(chk, "K-KIND", "runs:next-sector-at-open", st, at_end(blk, ng), S.op("add", look, gsz), ov, fl, dom2)
-            if ro is not None:
-                _scen(chk, "K-FORMULA", "runs:in-grain-offset-at-open", st, at_end(blk, ro), spec_expr("POS % gs", env), ov, fl, dom2)
-        elif rt_val == S.C(0) and rp is not None:
-            n_open["unalloc"] += 1
-            _scen(chk, "K-FORMULA", "runs:parent-sector-at-open", st, at_end(blk, rp), S.op("add", so, POS), ov, fl, dom2)
-    chk.decide(n_open["alloc"] == 1 and n_open["unalloc"] == 1 and ro is not None and rp is not None, "K-KIND",
-               "runs:open-branches", loop,
-               f"one branch opens an allocated run (type := grain sector), one an unallocated run (type := 0): {n_open}")
-    # producer tuple roles
-    apps = [n for n in ast.walk(ctx.func) if isinstance(n, ast.Call) and isinstance(n.func, ast.Attribute) and n.func.attr == "append"]
-    okp = bool(apps)
-    order = None
-    for a in apps:
-        if not (a.args and isinstance(a.args[0], ast.Tuple) and len(a.args[0].elts) == 4 and all(isinstance(e, ast.Name) for e in a.args[0].elts)):
-            okp = False
-            continue
-        ids = [e.id for e in a.args[0].elts]
-        if order is None:
-            order = ids
-        okp = okp and ids == order and ids[0] == rt and ids[2] == count_var and ids[1] == ro and ids[3] == rp
-    chk.decide(okp, "K-PROV", "runs:tuple-roles:producer", ctx.func,
-               f"every run is recorded as (type/grain sector, in-grain offset, sector count, parent sector): {order}")
+    run_machine(chk, ctx, loop, carried, pname, rname, POS, REM, look, so, gsz, ov, fl)
     _typestate(chk, ctx, "get-runs")
 
 
@@ -756,3 +649,167 @@ def compressed_grain(chk: Check, K: Kinds, sk):
     elif len(reads) <= 1:
         chk.violated("K-DISPATCH", "grain:continuation-condition", ctx.func, "grains larger than one sector are never read completely")
     _typestate(chk, ctx, "grain")
+
+
+def run_machine(chk: Check, ctx, loop, carried, pname, rname, POS, REM, look, so, gsz, ov, fl):
+    """The loop body of get_runs as a state machine, decided by evaluating the values its variables carry around the
+    back edge (whatever the branch structure that produces them):
+
+        state  (type, in-grain offset, count, parent sector, expected next sector), emitted list of runs
+        input  g = grain sector of POS // gs (0 unallocated, 1 zero, > 1 allocated), step, off = POS % gs
+        merge  iff type in (0, 1) and g == type, or type > 1 and g == expected next   -> count += step (next += gs)
+        else   emit (type, offset, count, parent) if a run is open; open: type = g, count = step,
+               g == 0: parent = sector_offset + POS;  g > 1: offset = off, next = g + gs
+
+    The roles of the variables are read off the emitted tuple (type, offset, count, parent)."""
+    R = chk.R
+    # ---- roles -----------------------------------------------------------------------------------------------
+    apps = [n for n in ast.walk(ctx.func) if isinstance(n, ast.Call) and isinstance(n.func, ast.Attribute) and n.func.attr == "append" and len(n.args) == 1]
+    in_loop = [a for a in apps if any(a is x for x in ast.walk(loop))]
+    after = [a for a in apps if a not in in_loop]
+    phis = {n: i["phi"] for n, i in carried.items() if i["phi"][0] == "phi"}
+    roles = None
+    okp = bool(in_loop)
+    for a in in_loop:
+        t = R.expr(ctx, a.args[0], ctx.cfg.node_for(a))
+        if not (t[0] == "tuple" and len(t[1]) == 4):
+            okp = False
+            continue
+        names = []
+        for el in t[1]:
+            hit = [n for n, ph in phis.items() if ph == el]
+            names.append(hit[0] if len(hit) == 1 else None)
+        if None in names and len(t[1]) == 4:
+            # a recorded component that the loop never updates: it cannot describe the run it is recorded with
+            for i, nm in enumerate(names):
+                if nm is None and not S.contains(t[1][i], lambda x: isinstance(x, tuple) and x and x[0] == "phi"):
+                    kind, rname_, what = [("K-KIND", "runs:open-state", "run type"), ("K-FORMULA", "runs:in-grain-offset-at-open", "in-grain offset"),
+                                          ("K-KIND", "runs:open-state", "sector count"), ("K-FORMULA", "runs:parent-sector-at-open", "parent sector")][i]
+                    chk.violated(kind, rname_, a, f"the {what} recorded with every run is `{S.show(t[1][i])[:60]}`: it is never updated inside the loop")
+                    return
+        if None in names or len(set(names)) != 4:
+            okp = False
+            continue
+        if roles is None:
+            roles = names
+        okp = okp and names == roles
+    if roles is None:
+        chk.undecided("K-PROV", "runs:tuple-roles:producer", loop, "no run tuple (type, offset, count, parent) of loop-carried variables is recorded inside the loop")
+        return
+    rt, ro, rc, rp = roles
+    # the flush behind the loop records the same variables in the same order
+    for a in after:
+        t = R.expr(ctx, a.args[0], ctx.cfg.node_for(a))
+        names = []
+        if t[0] == "tuple" and len(t[1]) == 4:
+            for el in t[1]:
+                hit = [n for n in carried if R._name(ctx, n, ctx.cfg.node_for(a), {}, False, 0) == el]
+                names.append(hit[0] if hit else None)
+        okp = okp and names == roles
+    chk.decide(okp and bool(after), "K-PROV", "runs:tuple-roles:producer", ctx.func,
+               f"every run is recorded as (type/grain sector, in-grain offset, sector count, parent sector): {roles}; the open run is flushed behind the loop")
+    rest = [n for n in phis if n not in (rt, ro, rc, rp, pname, rname)]
+    if len(rest) != 1:
+        chk.decide(False if not rest else None, "K-KIND", "runs:merge-predicate", loop,
+                   "no variable remembers the file sector that would continue an allocated run: adjacency cannot be decided" if not rest
+                   else f"cannot tell which of {rest} is the expected next sector")
+        return
+    ng = rest[0]
+    RT, RO, RC, RP, NG = phis[rt], phis[ro], phis[rc], phis[rp], phis[ng]
+    entry_ok = RT[3] == S.C(None) and RC[3] == S.C(0)
+    chk.decide(entry_ok, "K-KIND", "runs:initial-state", loop, "before the first grain no run is open (type None, count 0)",
+               found=f"type {S.show(RT[3])}, count {S.show(RC[3])}")
+
+    def nxt(name):
+        vals = [t for _, t in carried[name]["next"]]
+        return vals[0] if vals and all(v == vals[0] for v in vals) else None
+
+    N = {n: nxt(n) for n in (rt, ro, rc, rp, ng)}
+    if any(v is None for v in N.values()):
+        chk.undecided("K-KIND", "runs:merge-predicate", loop, "the loop has several back edges with different values: not a single transition per grain")
+        return
+    emits = []
+    for a in in_loop:
+        emits.append((conds_sym(chk, ctx, a), R.expr(ctx, a.args[0], ctx.cfg.node_for(a))))
+    # ---- evaluation over the kind x adjacency partition -------------------------------------------------------------
+    GS, SO = 128, 1 << 20
+    f2 = dict(fl)
+    for key in (("VMDKSparseExtentHeader", 20), ("COWDSparseExtentHeader", 16), ("VMDKSESparseConstHeader", 24)):
+        f2[key] = GS
+    probs = {k: [] for k in ("merge", "next-merge", "next-open", "offset-open", "parent-open", "open", "flush")}
+    ncases = 0
+    errors = []
+    for run_type in (None, 0, 1, 2, 1000, 5000):
+        for g in (0, 1, 2, 1000, 1128, 1256, 5000, 5128):
+            nexts = [7] if run_type in (None, 0, 1) else [run_type + GS, run_type + 2 * GS]
+            if run_type in (0, 1):
+                nexts = [7, g]  # a stale expected-next value must not matter for sparse runs
+            for ngv in nexts:
+                for pos, rem in ((5 * GS + 3, 1000), (9 * GS, 40), (2 * GS + 100, 28), (0, 1)):
+                    ncases += 1
+                    off = pos % GS
+                    step = min(rem, GS - off)
+                    ro0, rc0, rp0 = 77, 300, (SO + 4242 if run_type == 0 else None)
+                    if run_type is None:
+                        # no run is open: the state is the initial one
+                        init = [RO[3], RC[3], RP[3], NG[3]]
+                        if not all(S.is_const(x) for x in init):
+                            continue
+                        ro0, rc0, rp0, ngv = (x[1] for x in init)
+                    o2 = dict(ov)
+                    o2.update({RT: run_type, RO: ro0, RC: rc0, RP: rp0, NG: ngv, look: g, POS: pos, REM: rem, so: SO,
+                               ("p", ctx.qual, 1): SO + pos, ("p", ctx.qual, 2): rem + 1})
+                    val = S.Valuation(1, override=o2, fields=f2)
+                    try:
+                        got = {n: S.ev(N[n], val) for n in N}
+                        fired = [S.ev(t, val) for c, t in emits if eval_conds(c, val)]
+                    except S.EvalError as e:
+                        errors.append(str(e))
+                        continue
+                    merged_spec = (run_type in (0, 1) and g == run_type) or (run_type is not None and run_type > 1 and g > 1 and g == ngv)
+                    case = f"run type {run_type}, expected next {ngv}, grain at {g}"
+                    merged_got = got[rt] == run_type and got[rc] == rc0 + step and not fired
+                    opened_got = got[rt] == g and got[rc] == step
+                    if merged_spec:
+                        if not merged_got:
+                            probs["merge"].append(f"{case}: merges=False, specified True")
+                            continue
+                        if run_type is not None and run_type > 1 and got[ng] != ngv + GS:
+                            probs["next-merge"].append(f"{case}: expected next becomes {got[ng]}, specified {ngv + GS}")
+                        if run_type == 0 and got[rp] != rp0:
+                            probs["parent-open"].append(f"{case}: the parent sector of the open run changes to {got[rp]}")
+                        if run_type is not None and run_type > 1 and got[ro] != ro0:
+                            probs["offset-open"].append(f"{case}: the in-grain offset of the open run changes to {got[ro]}")
+                        continue
+                    if merged_got and run_type is not None:
+                        probs["merge"].append(f"{case}: merges=True, specified False")
+                        continue
+                    if not opened_got:
+                        probs["open"].append(f"{case}: new run has type {got[rt]} and count {got[rc]}, specified {g} and {step}")
+                        continue
+                    if g == 0 and got[rp] != SO + pos:
+                        probs["parent-open"].append(f"{case} at sector {pos}: parent sector {got[rp]}, specified sector_offset + sector = {SO + pos}")
+                    if g > 1 and got[ro] != off:
+                        probs["offset-open"].append(f"{case} at sector {pos}: in-grain offset {got[ro]}, specified {off}")
+                    if g > 1 and got[ng] != g + GS:
+                        probs["next-open"].append(f"{case}: expected next {got[ng]}, specified {g + GS}")
+                    want_emit = run_type is not None
+                    if want_emit != bool(fired) or len(fired) > 1:
+                        probs["flush"].append(f"{case}: {len(fired)} runs recorded when the run ends, specified {int(want_emit)}")
+                    elif fired:
+                        e = fired[0]
+                        bad_t = not (isinstance(e, tuple) and len(e) == 4) or e[0] != run_type or e[2] != rc0 or (run_type > 1 and e[1] != ro0) or (run_type == 0 and e[3] != rp0)
+                        if bad_t:
+                            probs["flush"].append(f"{case}: recorded {e}, specified ({run_type}, {ro0}, {rc0}, {rp0})")
+    if errors and not any(probs.values()):
+        chk.undecided("K-KIND", "runs:merge-predicate", loop, f"cannot evaluate the transition: {errors[0]}")
+        return
+    names = {"merge": ("K-KIND", "runs:merge-predicate", "unallocated/zero runs extend over the same kind only, allocated runs only over the physically next grain"),
+             "next-merge": ("K-KIND", "runs:next-sector-after-merge", "extending an allocated run moves the expected next sector on by one grain"),
+             "next-open": ("K-KIND", "runs:next-sector-at-open", "opening an allocated run expects the grain behind it next"),
+             "offset-open": ("K-FORMULA", "runs:in-grain-offset-at-open", "an allocated run starts at sector % grain_size inside its first grain"),
+             "parent-open": ("K-FORMULA", "runs:parent-sector-at-open", "an unallocated run remembers sector_offset + sector for the parent"),
+             "open": ("K-KIND", "runs:open-state", "a new run takes the grain's sector as its type and the step as its count"),
+             "flush": ("K-KIND", "runs:flush-on-open", "the open run is recorded exactly once, unchanged, when a new one starts")}
+    for k, (kind, name, text) in names.items():
+        chk.decide(not probs[k], kind, name, loop, f"{text} ({ncases} cases evaluated)" if not probs[k] else "; ".join(probs[k][:3]))
